@@ -29,6 +29,22 @@ class FakeInstColl:
         pass
 
 
+def _nested_scheduler_function():
+    """`schedule_with_error_handling`, the coroutine function that PoolScheduler.schedule_loop_body defines around job.schedule_job
+    (what it does when the call fails is part of the in-memory accounting), rebuilt from its code object"""
+    import types
+
+    import batch.driver.instance_collection.pool as pm
+
+    code = pm.PoolScheduler.schedule_loop_body.__code__
+    for c in code.co_consts:
+        if isinstance(c, types.CodeType) and c.co_name == "schedule_with_error_handling":
+            if c.co_freevars:
+                raise RuntimeError(f"schedule_with_error_handling closes over {c.co_freevars}: the harness must be adapted")
+            return types.FunctionType(c, pm.__dict__)
+    raise RuntimeError("PoolScheduler.schedule_loop_body no longer defines schedule_with_error_handling: the harness must be adapted")
+
+
 class RecordingSession:
     """the driver's HTTP client to the workers: records which <<job, instance>> were told to stop (DELETE .../jobs/{j}/delete)"""
 
@@ -70,6 +86,7 @@ class MemImpl(B.Impl):
         from hailtop.utils import Notice
 
         self.dj = dj
+        self.schedule_with_error_handling = _nested_scheduler_function()
         w = self.w
         self.icm = ICM()
         self.ic = FakeInstColl(w.loop)
@@ -109,13 +126,8 @@ class MemImpl(B.Impl):
         if name == "MSchedule":
             j, a, i = args
 
-            async def go():
-                try:
-                    await dj.schedule_job(w.app, self.record(j, a), I[i])
-                except AssertionError:
-                    pass           # schedule_with_error_handling: gives the cores back only if the instance is active (it is not)
-
-            return w.run(go())
+            # the REAL error handling around schedule_job: the function nested in PoolScheduler.schedule_loop_body
+            return w.run(self.schedule_with_error_handling(w.app, self.record(j, a), I[i]))
         if name == "MStarted":
             j, a, i, t = args
             return w.run(dj.mark_job_started(w.app, b, j, a, I[i], t, []))
